@@ -449,6 +449,10 @@ func txScenarios(tier string) []*Scenario {
 		other = append(other, []string{"LPOP", "kq"})
 		add(fmt.Sprintf("tx/EXEC(SELECT1,RPUSH,LLEN,LPOP)||db1:PINGx%d+LPOP", n), [][]string{{"MULTI"}, {"SELECT", "1"}, {"RPUSH", "kq", "t"}, {"LLEN", "kq"}, {"LPOP", "kq"}, {"EXEC"}}, other)
 	}
+	// FLUSHALL inside transactions of connections in different databases: each EXEC owns its database and
+	// FLUSHALL needs all of them
+	add("tx/EXEC(FLUSHALL)||db1:EXEC(FLUSHALL)", [][]string{{"MULTI"}, {"FLUSHALL"}, {"SET", "a", "0"}, {"EXEC"}}, [][]string{{"SELECT", "1"}, {"SET", "z", "1"}, {"MULTI"}, {"FLUSHALL"}, {"SET", "z", "2"}, {"EXEC"}})
+	add("tx/EXEC(FLUSHALL)||db1:FLUSHALL||db2:EXEC(SET)", [][]string{{"MULTI"}, {"FLUSHALL"}, {"EXEC"}}, [][]string{{"SELECT", "1"}, {"FLUSHALL"}}, [][]string{{"SELECT", "2"}, {"MULTI"}, {"SET", "y", "1"}, {"EXEC"}})
 	// commands that need two databases, inside and outside a transaction
 	add("tx/EXEC(COPY-DB1)||db1:COPY-DB0", [][]string{{"MULTI"}, {"COPY", "a", "c", "DB", "1"}, {"GET", "a"}, {"EXEC"}}, [][]string{{"SELECT", "1"}, {"SET", "z", "1"}, {"COPY", "z", "z2", "DB", "0"}})
 	add("tx/EXEC(MOVE)||db1:MOVE", [][]string{{"MULTI"}, {"MOVE", "a", "1"}, {"EXEC"}}, [][]string{{"SELECT", "1"}, {"SET", "z", "1"}, {"MOVE", "z", "0"}})
